@@ -117,8 +117,25 @@ def oracle(lines, trace):
                 nh = int(f[5])
                 method = bytes.fromhex(f[2]) if f[2] != "-" else b""
                 req = bytes.fromhex(f[3]) if f[3] != "-" else b""
+                hdrs = []
                 for _ in range(nh):
-                    next(it, "")
+                    h = next(it, "").split()
+                    if len(h) == 3 and h[0] == "HD":
+                        hdrs.append((bytes.fromhex(h[1]) if h[1] != "-" else b"", bytes.fromhex(h[2]) if h[2] != "-" else b""))
+                # the header map: names lower-cased and trimmed, values trimmed, the LAST of equal names wins,
+                # in the order of std::map (checked when the request line is the first line)
+                first = data.split(b"\r\n", 1)[0]
+                if data.endswith(b"\r\n\r\n") and first.count(b" ") >= 2:
+                    exp = {}
+                    okk = True
+                    for ln in data[:-4].split(b"\r\n")[1:]:
+                        if b":" not in ln:
+                            okk = False
+                            break
+                        k, v = ln.split(b":", 1)
+                        exp[k.strip(b" \r\n\t\0").lower()] = v.strip(b" \r\n\t\0")
+                    if okk and hdrs != sorted(exp.items()):
+                        fails.append(("c15/headers", "headers of %r parsed as %r, expected %r" % (data[:80], hdrs[:4], sorted(exp.items())[:4])))
                 # the result must carry exactly the first two space-separated tokens
                 parts = data.split(b" ", 2)
                 if len(parts) < 3 or method != parts[0] or req != parts[1]:
